@@ -3,6 +3,7 @@
    owners, handler shape), Scope.v (positions of parameters, enumerators, bases). *)
 From Coq Require Import List PeanoNat Bool.
 From IprV Require Import Region Scope.
+From IprV Require StateSpace.
 Import ListNotations.
 
 (* for every construction history (any nesting, any depth, any order): *)
@@ -62,6 +63,12 @@ Example c12_nonvacuous :
     [Some (0, 0); None; Some (2, 0); Some (2, 0); Some (3, 0); None; Some (4, 1); Some (5, 0)].
 Proof. vm_compute. auto. Qed.
 
+(* regions, parameter lists and positioned members have the data members (and widths) the Region model abstracts (StateSpace.v against the regenerated GenState) *)
+Theorem c12_state_is_what_the_model_abstracts :
+  StateSpace.state_as_modelled (StateSpace.region_state) = true.
+Proof. vm_compute. reflexivity. Qed.
+
+Print Assumptions c12_state_is_what_the_model_abstracts.
 Print Assumptions c12_parent_created_earlier.
 Print Assumptions c12_reaches_global.
 Print Assumptions c12_only_root_is_global.
